@@ -28,7 +28,8 @@ class Launch:
     """One runner = one output directory = one batch of jobs on one (pretended) node."""
 
     def __init__(self, output, specs, hpc_type="slurm", batch_id=1, slurm_job_id="4242", node_id="0"):
-        """specs: list of dict(name, command, append_job_name, append_output_dir)"""
+        """specs: list of dict(name, command, append_job_name, append_output_dir); the commands run
+        probe.py with a --key=K argument under which the probe files its dump"""
         logging.disable(logging.CRITICAL)
         from jade.extensions.generic_command.generic_command_configuration import GenericCommandConfiguration
         from jade.extensions.generic_command.generic_command_parameters import GenericCommandParameters
@@ -51,9 +52,14 @@ class Launch:
         self.expected_hpc_id = slurm_job_id if hpc_type == "slurm" else None
         config = GenericCommandConfiguration()
         for i, s in enumerate(specs):
-            config.add_job(GenericCommandParameters(
+            job = GenericCommandParameters(
                 name=s["name"], command=s["command"], append_job_name=s["append_job_name"],
-                append_output_dir=s["append_output_dir"], job_id=i + 1))
+                append_output_dir=s["append_output_dir"], job_id=i + 1)
+            # JADE's pydantic models normalise strings (strip); the check only uses normal forms
+            if job.name != s["name"] or job.command != s["command"]:
+                raise ValueError("launch driver: job fields were normalised by JADE: %r -> %r / %r -> %r"
+                                 % (s["name"], job.name, s["command"], job.command))
+            config.add_job(job)
         hpc = {"account": "acct"} if hpc_type == "slurm" else {}
         hpcc = HpcConfig(hpc_type=hpc_type, hpc=hpc)
         config.append_submission_group(SubmissionGroup(name="default", submitter_params=SubmitterParams(hpc_config=hpcc)))
@@ -113,8 +119,9 @@ class Launch:
         p = os.path.join(self.output, "results", f"results_batch_{self.batch_id}.csv")
         return open(p).read() if os.path.exists(p) else ""
 
-    def probe_dump(self, name):
-        p = os.path.join(self.probe_dir, probe_key(name) + ".json")
+    def probe_dump(self, key):
+        """key: the K of the job's --key=K argument"""
+        p = os.path.join(self.probe_dir, str(key) + ".json")
         if not os.path.exists(p):
             return None
         with open(p) as f:
